@@ -4748,3 +4748,47 @@ func checkGetBuildsItsReader(c *Ctx, rule string) {
 			fid+" can return a reader it did not build for this hash in this call (a remembered one): after a failed build for another object the previous object's bytes are served under the new name")
 	}
 }
+
+// checkLocalMetadataScannersSkipData (C05, C04): the two scanners of a downloaded tree's keys (the one that resolves the
+// local copy's bundle ID, the one that collects its metadata keys) agree: a key that is not a metadata path — a data
+// file, which may sort before the metadata directory — is skipped (`continue` on ConsumableStorePathMetadataErr), never
+// a reason to fail. Contradiction rule between siblings: one skipped, the other failed on the same input.
+func checkLocalMetadataScannersSkipData(c *Ctx, rule string) {
+	p := c.P
+	for _, fid := range []string{"pkg/core.setBundleIDFromConsumableStore", "pkg/core.getConsumableStoreMetadataKeysInfo"} {
+		f := p.Func(fid)
+		info := f.Info()
+		ok := false
+		// the ok variable(s) of a type assertion to ConsumableStorePathMetadataErr
+		okVars := map[types.Object]bool{}
+		ast.Inspect(f.Decl.Body, func(nd ast.Node) bool {
+			as, isAs := nd.(*ast.AssignStmt)
+			if !isAs || len(as.Lhs) != 2 || len(as.Rhs) != 1 {
+				return true
+			}
+			if ta, isTA := ast.Unparen(as.Rhs[0]).(*ast.TypeAssertExpr); isTA && ta.Type != nil && namedTypeID(info.TypeOf(ta.Type)) == "pkg/model.ConsumableStorePathMetadataErr" {
+				if id, isID := as.Lhs[1].(*ast.Ident); isID {
+					okVars[info.ObjectOf(id)] = true
+				}
+			}
+			return true
+		})
+		ast.Inspect(f.Decl.Body, func(nd ast.Node) bool {
+			ifs, isIf := nd.(*ast.IfStmt)
+			if !isIf || len(ifs.Body.List) == 0 {
+				return true
+			}
+			id, isID := ast.Unparen(ifs.Cond).(*ast.Ident)
+			if !isID || !okVars[info.Uses[id]] {
+				return true
+			}
+			if br, isBr := ifs.Body.List[len(ifs.Body.List)-1].(*ast.BranchStmt); isBr && br.Tok == token.CONTINUE {
+				ok = true
+			}
+			return true
+		})
+		c.check(ok, rule, fid, p.Pos(f.Decl.Pos()),
+			"a key that is not a metadata path is skipped",
+			fid+" no longer skips the keys that are not metadata paths: a downloaded tree holding a top-level name that sorts before the metadata directory (\"-x\", \" a\", \".conflicts/…\") can be downloaded but neither diffed nor updated")
+	}
+}
